@@ -105,6 +105,8 @@ func init() {
 				Bound: "every byte string of 1..10 bytes (thorough: 1..13)"},
 			{Pkg: "amf0", Func: "HarnessC05_DupKeys", Labels: []string{"dupkeys"},
 				Bound: "object / ECMA array / strict array (library layout) with 2-3 properties, keys 0-1 symbolic bytes (so repeated and empty keys are solver choices), values null/boolean/short string, 0-2 trailing bytes"},
+			{Pkg: "amf0", Func: "HarnessC05_History", Labels: []string{"history"},
+				Bound: "object / ECMA array / strict array with 0-2 scalar properties: marshal, marshal a second value, decode the bytes obtained first, extend the decoded value by 1-2 properties through Set, marshal and decode again (sync.Pool modelled as returning the value put last)"},
 		},
 	})
 	reg(&propSpec{
@@ -218,13 +220,14 @@ func init() {
 		ID:   "C07",
 		Rule: "Harnesses c07.go in harness/{amf0,rtmp,flv,aac,avc}: the input is an arbitrary byte string (all bytes symbolic, length forked 0..N); the only obligation is that the call returns: every panic site's feasibility is a solver query (bounds checks, nil checks, make sizes, divisions fork on their failure condition), and a path that exhausts its step budget is replayed natively under a 10 s watchdog (a native hang is a stall violation).",
 		Assumptions: append([]string{
-			"claimed subset: RTMP chunk reader and message/packet decoders, AMF0, FLV demuxer and tag decoders, ADTS/AudioSpecificConfig, AVC NAL/record/sample, WebSocket frame reader, JSON+ reader (C17's harness), the JOSE length/offset kernels (key wrap, CBC-HMAC Open, padding removal, AEAD decrypt) over stubbed primitives, enum helpers; NOT claimed: JWS/JWE/JWK parsing and OCSP (encoding/json, encoding/asn1, reflection, math/big are outside the engine), inputs longer than the stated bounds, and the linear-time clause (termination within the bound is shown, not a complexity class)",
+			"claimed subset: RTMP chunk reader and message/packet decoders, AMF0, FLV demuxer and tag decoders, ADTS/AudioSpecificConfig, AVC NAL/record/sample, WebSocket frame reader, JSON+ reader (arbitrary bytes in HarnessC07_Json, structured documents in C17's harness), the JOSE length/offset kernels (key wrap, CBC-HMAC Open, padding removal, AEAD decrypt) over stubbed primitives, enum helpers; NOT claimed: JWS/JWE/JWK parsing and OCSP (encoding/json, encoding/asn1, reflection, math/big are outside the engine), inputs longer than the stated bounds, and the linear-time clause (termination within the bound is shown, not a complexity class)",
 			"allocation sizes that depend on symbolic length fields with more than 64 feasible values are explored for 64 values (evidence: size_sampled_sites)",
 		}, commonAssumptions...),
 		Harnesses: []harnessSpec{
 			{Pkg: "amf0", Func: "HarnessC07_Amf0", Stall: true, Labels: []string{"c07-amf0", "c07-amf0-accepted"}, Bound: "every byte string of 0..10 bytes (thorough 0..13) through Discovery+UnmarshalBinary and through each concrete type's decoder"},
 			{Pkg: "amf0", Func: "HarnessC07_Amf0Truncated", Stall: true, Labels: []string{"c07-amf0-trunc", "c07-amf0-trunc-accepted"}, Bound: "encodings of a container (object/ECMA/strict) nested in a container, with 4 kinds of leaf and an optional sibling, cut at every offset"},
 			{Pkg: "amf0", Func: "HarnessC07_Amf0Enums", Labels: []string{"c07-amf0-enums"}, Bound: "marker.String() over all 256 values"},
+			{Pkg: "json", Func: "HarnessC07_Json", Stall: true, Labels: []string{"c07-json", "c07-json-accepted"}, Bound: "every byte string of 0..5 bytes (thorough 0..7) through NewJsonPlusReader+ReadAll, delivered whole, byte by byte, or split once at every offset"},
 			{Pkg: "rtmp", Func: "HarnessC07_Chunks", Stall: true, Labels: []string{"c07-chunks"}, Bound: "ReadMessage until error over every byte string of 0..12 bytes (thorough 0..16), input chunk size default 128 or symbolic 1..4"},
 			{Pkg: "rtmp", Func: "HarnessC07_ChunkStep", Stall: true, Labels: []string{"c07-chunkstep", "c07-chunkstep-message"}, Bound: "one chunk (header type forked, 0..18 arbitrary bytes, chunk size symbolic 1..4) from an arbitrary valid chunk-stream state: fresh / idle with symbolic inherited fields / message of 2..6 bytes partially received"},
 			{Pkg: "rtmp", Func: "HarnessC07_Decode", Stall: true, Labels: []string{"c07-decode", "c07-decode-accepted"}, Bound: "DecodeMessage with symbolic type and payload of 0..10 bytes (thorough 0..13), with and without outstanding requests"},
@@ -258,6 +261,8 @@ func init() {
 			{Pkg: "websocket", Func: "HarnessC14_Seq", TimeFixed: true, Labels: []string{"seq-close", "seq-eof", "seq-limit", "seq-violation"},
 				Bound:  "both roles; sequences of 2 frames over 16 frame kinds (8 conformant incl. fragments/ping/pong/close, 8 violating: RSV, reserved opcode, fragmented or oversized control, wrong mask, bad close code, non-UTF-8 reason, top-bit length); first frame in 7/16/64-bit length form with 0/1/3 symbolic payload bytes; read limit in {none, 2}",
 				BoundT: "sequences of 3 frames; read limit in {none,1,2,4}; whole and 1-byte reads"},
+			{Pkg: "websocket", Func: "HarnessC14_LimitAcross", TimeFixed: true, Labels: []string{"across-limit", "across-ok"}, Bound: "a message of two fragments (1-2 + 1-2 symbolic bytes) with 0-2 empty pings/pongs between them, read limit 1..4"},
+			{Pkg: "websocket", Func: "HarnessC14_SmallBuf", TimeFixed: true, Labels: []string{"smallbuf"}, Bound: "configured read buffer of 1/16/64/124 bytes; a ping of 17/65/125 bytes (2 symbolic positions) followed by a 2-byte message"},
 			{Pkg: "websocket", Func: "HarnessC14_Cut", TimeFixed: true, Labels: []string{"cut"}, Bound: "one message of 1-2 frames (1-3 + 0-2 symbolic bytes, 7/16-bit length form) cut at every offset inside it; whole and 1-byte reads"},
 		},
 	})
